@@ -156,13 +156,13 @@ class BayesianNetwork:
         elif type(n) == int and n <= 0:
             raise ValueError(_N_TYPE_ERROR)
         elif type(n) == list:
-            if len(n) != self.e:
-                raise ValueError(_N_TYPE_ERROR)
             for i in n:
                 if type(i) != int:
                     raise TypeError(_N_TYPE_ERROR)
                 elif i <= 0:
                     raise ValueError(_N_TYPE_ERROR)
+            if len(n) != self.e:
+                raise ValueError(_N_TYPE_ERROR)
         return None
 
 
